@@ -202,10 +202,14 @@ MC = {
     "close": dict(script="ScriptClose", amax=2, emax=2, conns=2, dial=1, write=1, read=1, store=0, calls=4, k_quick=150, k_thorough=15),
     "two":   dict(script="ScriptTwo",   amax=2, emax=2, conns=2, dial=0, write=1, read=0, store=0, calls=3, k_quick=400, k_thorough=60),
     "max1":  dict(script="ScriptTwo",   amax=1, emax=1, conns=1, dial=0, write=0, read=0, store=0, calls=3, k_quick=30, k_thorough=3),
+    "req":   dict(script="ScriptReq",   amax=2, emax=2, conns=2, dial=1, write=1, read=0, store=0, calls=4, k_quick=20, k_thorough=2),
+    "pings": dict(script="ScriptPings", amax=2, emax=2, conns=2, dial=1, write=1, read=0, store=0, calls=4, k_quick=15, k_thorough=2),
+    "reqclose": dict(script="ScriptReqClose", amax=2, emax=2, conns=2, dial=0, write=1, read=0, store=0, calls=3, k_quick=200, k_thorough=25),
+    "mixreq": dict(script="ScriptMixReq", amax=2, emax=2, conns=2, dial=1, write=1, read=0, store=0, calls=4, k_quick=25, k_thorough=3),
 }
 MC_FOR = {
-    "C01": ["one", "q2"], "C03": ["q2"], "C05": ["two"], "C10": ["one", "q2"], "C12": ["close"], "C17": ["max1", "one"],
-    "C18": ["one"], "C14": ["one", "close"], "C08": ["one", "two"], "C11": ["close"],
+    "C01": ["one", "q2"], "C03": ["q2"], "C05": ["two"], "C10": ["one", "mixreq"], "C12": ["close", "reqclose"], "C17": ["max1", "one"],
+    "C18": ["one", "req"], "C14": ["req", "close"], "C08": ["mixreq", "two"], "C11": ["req", "pings"],
 }
 INVARIANTS = "TypeOK C01_NoForgedCompletion C03_ExactlyOnceDelivery C05_WireOrderIsIdOrder C12_Signals C17_Bounded C18_ConnectFirst"
 
@@ -239,7 +243,7 @@ def tlc_behaviours(ctx, name, cap):
     maximal = maximal[:cap]
     procs = {"rd": {"kind": "reader"}}
     for p, ops in script.items():
-        procs[p] = {"kind": "script", "ops": [{"m": o["m"], "tag": o["tag"], "size": 8} for o in ops]}
+        procs[p] = {"kind": "script", "ops": [{"m": o["m"], "tag": o["tag"], "size": 8, "filters": ["a/b"], "quit": "nil"} for o in ops]}
     ctx.cov["behaviours_exported"] = ctx.cov.get("behaviours_exported", 0) + len(cases)
     if k == 1 and len(maximal) == len([1 for _ in maximal]) and cap >= len(maximal):
         ctx.cov["exhaustive_configs"] = ctx.cov.get("exhaustive_configs", []) + [name]
